@@ -48,6 +48,7 @@ EXC_PARENT = {
     'SystemExit': 'BaseException', 'CancelledError': 'BaseException',
     'GeneratorExit': 'BaseException', 'BrokenPipeError': 'OSError',
     'WebSocketConnectionClosedException': 'Exception', 'WebSocketTimeoutException': 'Exception',
+    'ServerDisconnectedError': 'Exception',
     'ArithmeticError': 'Exception', 'ZeroDivisionError': 'ArithmeticError',
     'OverflowError': 'ArithmeticError',
     'LookupError': 'Exception', 'KeyError': 'LookupError', 'IndexError': 'LookupError',
